@@ -120,7 +120,8 @@ LawExtends ==
 
 (* ---- mechanism layer: the shunting-yard machine (PegVM!OTLoop) computes the Pratt-style meaning ---- *)
 \* (tables of three rows are left to the replay: the machine is evaluated on every table of one or two rows)
-VMTexts == IF Tier = "quick" THEN SelectSeq(Texts, LAMBDA t : Len(t) <= 4 \/ t[1] = lpar \/ Len(t) >= 6) ELSE Texts
+\* (the short texts and the hand-picked long ones, in both tiers: all 1 100 texts of the thorough tier cost 8 CPU-hours)
+VMTexts == SelectSeq(Texts, LAMBDA t : Len(t) <= 4 \/ t[1] = lpar \/ Len(t) >= 7)
 LawVMRefines ==
     (done /\ Len(rows) <= 2) =>
     \A k \in 1..Len(VMTexts) : VMClauses(G, Table(rows, opk), VMTexts[k]) /\ Refines(G, Ref("start"), VMTexts[k])
